@@ -268,10 +268,34 @@ def analyse_hubs(func, callee_uses=None, maybe_stream_params=()):
         for st in path:
             if isinstance(st, tuple):
                 continue
+            if isinstance(st, ast.For) and live:
+                # the body runs size(iter) times; its own branches exclude each other: the dearest path counts
+                names = set(live)
+                matcher = lambda n, names=names: isinstance(n, ast.Name) and isinstance(n.ctx, ast.Load) and n.id in names
+                uses = find_uses(st.iter, matcher, local_sizes, callee_uses)
+                inner = _block_uses(list(st.body), matcher, local_sizes, callee_uses)
+                if inner:
+                    sz = size_of(st.iter, local_sizes)
+                    if sz is None:
+                        from .core import AnalysisError
+                        raise AnalysisError("loop over %s uses a hub: number of iterations not interpretable" % unparse(st.iter))
+                    for u in inner:
+                        u.mult = u.mult * sz
+                        uses.append(u)
+                for u in uses:
+                    rec = live[u.node.id]
+                    rec.uses = rec.uses + u.mult
+                    rec.use_nodes.append(u.node)
+                continue
             if isinstance(st, (ast.Assign, ast.Return, ast.Expr, ast.AugAssign)):
                 val = st.value
                 if val is None:
                     continue
+                # next(xs) takes one item off a sized iterator
+                for c in ast.walk(val):
+                    if isinstance(c, ast.Call) and isinstance(c.func, ast.Name) and c.func.id == "next" and c.args \
+                            and isinstance(c.args[0], ast.Name) and c.args[0].id in local_sizes:
+                        local_sizes[c.args[0].id] = local_sizes[c.args[0].id] - 1
                 names = set(live)
                 matcher = lambda n, names=names: isinstance(n, ast.Name) and isinstance(n.ctx, ast.Load) and n.id in names
                 uses = find_uses(val, matcher, local_sizes, callee_uses)
@@ -319,6 +343,33 @@ def analyse_hubs(func, callee_uses=None, maybe_stream_params=()):
         done.extend(live.values())
         results.append(done)
     return results
+
+
+def _block_uses(stmts, matcher, local_sizes, callee_uses):
+    """Uses of tracked names in one execution of a block: the dearest of its straight-line paths; nested loops
+    multiply by their own size."""
+    best = []
+    for ipath in simple_paths(stmts):
+        got = []
+        for ist in ipath:
+            if isinstance(ist, ast.For):
+                got.extend(find_uses(ist.iter, matcher, local_sizes, callee_uses))
+                sub = _block_uses(list(ist.body), matcher, local_sizes, callee_uses)
+                if sub:
+                    sz = size_of(ist.iter, local_sizes)
+                    if sz is None:
+                        from .core import AnalysisError
+                        raise AnalysisError("loop over %s uses a hub: number of iterations not interpretable" % unparse(ist.iter))
+                    for u in sub:
+                        u.mult = u.mult * sz
+                        got.append(u)
+                continue
+            ival = ist[1] if isinstance(ist, tuple) else getattr(ist, "value", None)
+            if ival is not None and not isinstance(ist, FuncTypes):
+                got.extend(find_uses(ival, matcher, local_sizes, callee_uses))
+        if len(got) > len(best):
+            best = got
+    return best
 
 
 def _mentions_iterable_op(val):
